@@ -102,6 +102,8 @@ VALS = {
     'xb': lambda: b'\x01', 'xn': lambda: None, 'xl': lambda: [1, 2], 'xt2': lambda: (1, 2), 'xset': lambda: {1, 2},
     'x1f': lambda: 1.0, 'xtrue': lambda: True, 'xo1': lambda: Plain(a=1), 'xo2': lambda: Plain2(a=1), 'vtl': lambda: ([1, 2], 3), 'vfl': lambda: (Plain(a=[1]), 'x'),
     'bad': lambda: Unencodable(),
+    # an argument whose text looks like the framework's own keys
+    'xop': lambda: 'output: _tape_recorder_operation #1.output result',
 }
 
 
@@ -537,6 +539,8 @@ def make_spy(inner, save_raises=False):
 
         def abort_recording(self, recording=None):
             self.log.append(('abort', getattr(recording, 'id', None)))
+            if getattr(self, 'abort_raises', False):
+                raise IOError('storage fails to abort by design')
             return self.inner.abort_recording(recording)
 
         def get_recording(self, recording_id):
